@@ -31,6 +31,7 @@ EXPLANATION = (
     ' (R8) execute() calls send_request at most once per activation and never re-enters itself; _read_from_socket executes the command once.'
     ' (R9, shared with C05.R2) the retry counter is reset wherever a request ends, so the next request is neither failed early nor granted extra transmissions.'
     ' (R10, shared with C05.R1) timeout and retries keep their role through every constructor / factory call: retries + 1 transmissions and one timeout per transmission are the caller\'s numbers.'
+    ' (R11, shared with C18.R5) send_request and its helpers transmit and retry the request they were given, never the one remembered on the protocol object; (R12, shared with C09.R9) no attribute of self.command / self.response_future is used on a path of send_request before _send_request bound them.'
 )
 
 
@@ -67,6 +68,11 @@ def check(ctx: Ctx, rep: Report):
     for o in _s9.obligations:
         if o.rule == "C05.R2":
             rep.obligations.append(type(o)("C04.R9", o.key, o.where, o.what, o.status, o.detail))
+    rep.rule("C04.R11", "a retransmission is the same request: send_request hands its own parameter to _send_request and to the retry recursion (shared with C18.R5 / C06.R12)", 2)
+    from .proto import retry_resends_own_command, inflight_fields_bound
+    retry_resends_own_command(ctx, rep, "C04.R11")
+    rep.rule("C04.R12", "a request that could not even be sent still ends as documented: no attribute of self.command / self.response_future is used before _send_request bound them on the path (shared with C09.R9)", 2)
+    inflight_fields_bound(ctx, rep, "C04.R12")
     for ci in proto_classes(ctx):
         r7(ctx, rep, ci)
     # ---- R6 shared with C01
